@@ -40,7 +40,10 @@ KINDS = ["Sphere", "SphereLayered", "LayeredSphere", "Spheres", "Scatterers", "S
          "SharedScalar", "SharedContainer", "SharedObject", "RigidClusterDefaults", "ModelTiedTheory", "ModelXarrayChannels",
          # untouched tuple defaults (F109), a tie that reaches outside the scatterer (F110), a complex prior with both parts fixed (F111),
          # a transformation that is a NumPy function but not a ufunc (F112)
-         "EllipsoidDefaults", "ModelTieAlpha", "ModelFixedComplex", "NumpyFuncPrior"]
+         "EllipsoidDefaults", "ModelTieAlpha", "ModelFixedComplex", "NumpyFuncPrior",
+         # a ufunc from outside NumPy, a bound method of a HoloPy object as transformation, a labelled-array value of a bare scatterer,
+         # a rigid cluster as member of a collection inside a model
+         "ScipyUfuncPrior", "BoundMethodPrior", "SphereXarrayValue", "ModelNestedRigid"]
 
 
 def cases(tier, seed):
@@ -50,7 +53,7 @@ def cases(tier, seed):
     for rep in range(n):
         for kind in KINDS:
             out.append({"id": "obj-%d" % k, "kind": "obj", "what": kind, "argstyle": ["python", "numpy", "tuple", "array", "extreme", "none"][(rep + k) % 6],
-                        "cycles": 1 + (k % 3), "target": ["stream", "file", "textstream"][(k // 3) % 3], "seed": [seed, "obj", k]})      # (textstream: F113)
+                        "cycles": 1 + (k % 3), "target": ["stream", "file", "textstream", "hp_textstream", "tempfile_binary", "tempfile_text"][(k // 3) % 6], "seed": [seed, "obj", k]})      # (textstream: F113)
             k += 1
     out.append({"id": "inventory", "kind": "inventory"})
     # explicit None for every constructor argument whose default is something else, class by class with parent
@@ -234,6 +237,25 @@ def _make(what, rng, fl):
         p, q = _prior(rng, "U"), _prior(rng, "G")
         # (every spelling in turn, by repetition number: each has its own way into the text form)
         return [p * 3 + 1, p + q, 2 - p, p / q, p ** 2, -p, 1 / p, (p + 1) * (q - 0.5)][_REP[0] % 8]
+    if what == "ScipyUfuncPrior":
+        import scipy.special as sp_
+        f = [sp_.expit, sp_.erf, sp_.gamma, sp_.log1p][_REP[0] % 4]
+        return TransformedPrior(f, _prior(rng, "U"), name=[None, "squashed"][int(rng.integers(0, 2))])
+    if what == "BoundMethodPrior":
+        owner = _prior(rng, "U", named=["offset", "a of b", "roof", None][_REP[0] % 4])
+        return TransformedPrior(owner.unscale, _prior(rng, "U"))
+    if what == "SphereXarrayValue":
+        import xarray as xr
+        labs = [["red", "green"], ["uv", "ir"], [405, 658]][int(rng.integers(0, 3))]
+        nval = xr.DataArray([1.5, 1.6] if _REP[0] % 2 == 0 else [1.5 + 0.01j, 1.6], dims=["illumination"], coords={"illumination": labs})
+        return Sphere(n=nval, r=N(lo=0.3, hi=0.9), center=V())
+    if what == "ModelNestedRigid":
+        rc = RigidCluster(Spheres([Sphere(n=1.5, r=0.3, center=[0.0, 0.0, 0.0]), Sphere(n=1.5, r=0.3, center=[0.7, 0.0, 0.0])], warn=False),
+                          translation=[_prior(rng, "U"), 2.0, _prior(rng, "U")], rotation=(_prior(rng, "U"), 0.0, 0.0))
+        members = [rc, Sphere(n=1.5, r=_prior(rng, "U"), center=[5.0, 5.0, 5.0])]
+        if _REP[0] % 2:
+            members = members[::-1]
+        return AlphaModel(Scatterers(members), theory=Multisphere(), noise_sd=0.1, medium_index=1.33, illum_wavelen=0.66, illum_polarization=(1, 0))
     if what == "UfuncPrior":
         p, q = _prior(rng, "U"), _prior(rng, "U")
         return [np.sqrt(p), np.exp(p), np.maximum(p, q), np.add(p, 2.5), np.sin(np.sqrt(p)), TransformedPrior(np.hypot, [p, q], name="h"), 2.0 / p, q / np.sqrt(p)][_REP[0] % 8]
@@ -255,7 +277,10 @@ def _make(what, rng, fl):
             warnings.simplefilter("ignore")
             return Lens(N(lo=0.2, hi=1.2), [Mie(), Multisphere(), Tmatrix()][int(rng.integers(0, 3))], quad_npts_theta=int(rng.integers(10, 60)), quad_npts_phi=int(rng.integers(10, 60)))
     if what == "NmpfitStrategy":
-        return NmpfitStrategy(npixels=None if none else N(integer=True), quiet=bool(rng.integers(0, 2)), ftol=1e-9, xtol=1e-8, gtol=1e-7, maxiter=N(integer=True), seed=None if none else N(integer=True))
+        dmp = [0, 0.5, 2.0][int(rng.integers(0, 3))]
+        st = NmpfitStrategy(npixels=None if none else N(integer=True), quiet=bool(rng.integers(0, 2)), ftol=1e-9, xtol=1e-8, gtol=1e-7, damp=dmp, maxiter=N(integer=True), seed=None if none else N(integer=True))
+        _GIVEN[id(st)] = {"damp": dmp, "ftol": 1e-9, "xtol": 1e-8, "gtol": 1e-7}
+        return st
     if what == "LeastSquaresScipyStrategy":
         return LeastSquaresScipyStrategy(ftol=1e-9, xtol=1e-8, gtol=1e-7, max_nfev=None if none else N(integer=True), npixels=None if none else N(integer=True))
     if what == "CmaStrategy":
@@ -416,6 +441,9 @@ def _diff(a, b, path=""):
     return None if a == b else "%s: %r vs %r" % (path, a, b)
 
 
+_GIVEN = {}
+
+
 def _cycle(obj, target, td, k):
     import yaml
     import holopy as hp
@@ -425,6 +453,21 @@ def _cycle(obj, target, td, k):
         hp.save(p, obj)
         text = open(p, "rb").read().decode()
         return hp.load(p), text
+    if target == "hp_textstream":
+        tbuf = io.StringIO()             # the public save / load pair on a text stream
+        hp.save(tbuf, obj)
+        text = tbuf.getvalue()
+        tbuf.seek(0)
+        return hp.load(tbuf), text
+    if target in ("tempfile_binary", "tempfile_text"):
+        # the standard library's temporary files are streams too (wrappers, not io.IOBase instances)
+        with tempfile.NamedTemporaryFile("w+b" if target == "tempfile_binary" else "w+", dir=td) as fh:
+            hp.save(fh, obj)
+            fh.seek(0)
+            raw = fh.read()
+            text = raw.decode() if isinstance(raw, bytes) else raw
+            fh.seek(0)
+            return hp.load(fh), text
     if target == "textstream":
         tbuf = io.StringIO()             # a stream opened in text mode is a stream target too
         serialize.save(tbuf, obj)
@@ -505,6 +548,11 @@ def run_case(case):
     _REP[0] = int(case["seed"][-1]) // len(KINDS) if isinstance(case["seed"][-1], int) else 0
     obj = _make(case["what"], rng, case["argstyle"])
     flags, witness = {}, []
+    # "the same value for every constructor argument" starts with the object itself holding the values it was given
+    for k_, v_ in _GIVEN.pop(id(obj), {}).items():
+        if getattr(obj, k_, "<no attribute>") != v_:
+            flags["constructor_argument_kept"] = False
+            witness.append("%s given as %r, held as %r" % (k_, v_, getattr(obj, k_, "<no attribute>")))
     td = tempfile.mkdtemp(prefix="vf_c15_")
     try:
         a0 = _ctor_args(obj) if not isinstance(obj, Model) else None
@@ -537,7 +585,7 @@ def run_case(case):
                 i = next((j for j in range(min(len(texts[k]), len(texts[k - 1]))) if texts[k][j] != texts[k - 1][j]), 0)
                 witness.append("text %d vs %d differ at %d: %r vs %r" % (k - 1, k, i, texts[k - 1][max(0, i - 30):i + 40], texts[k][max(0, i - 30):i + 40]))
         # (library equality is claimed for list / scalar arguments only: this kind holds arrays whatever the style)
-        if case["argstyle"] == "python" and not isinstance(obj, Model) and case["what"] not in ("SharedContainer",):
+        if case["argstyle"] == "python" and not isinstance(obj, Model) and case["what"] not in ("SharedContainer", "BoundMethodPrior", "SphereXarrayValue"):      # (a bound method / labelled array is neither list nor scalar)
             try:
                 flags["library_equality"] = bool(cur == obj)
             except Exception as e:
